@@ -90,6 +90,14 @@ def run_multicube(tier, seed):
             problems.append(("tabbook: partition_sets has shape %s, expected 1 set of 3" %
                              ([len(p) for p in psets],), {"case": "tabbook", "prop": "partition_sets"}))
             continue
+        for flag, want in (("n_responses", a["hdr"]["n"]), ("missing_count", a["hdr"]["missing"]),
+                           ("has_numeric_measures", False), ("has_weighted_counts", True),
+                           ("is_ca_as_0th", False)):
+            evals += 1
+            got = getattr(cs, flag)
+            if got != want:
+                problems.append(("tabbook: CubeSet.%s is %r, the leading response says %r" %
+                                 (flag, got, want), {"case": "tabbook", "prop": flag}))
         for part, rec, name in zip(psets[0], (a, b, c), ("strand", "slice1", "slice2")):
             for prop, e in rec["parts"][0].items():
                 if prop.endswith("_pos") or prop.startswith("min_base"):
@@ -155,6 +163,52 @@ def run_multicube(tier, seed):
                     continue
                 _cmp(problems, "CA-as-0th slice %d .%s" % (k, prop), obs, e,
                      {"case": "ca0", "prop": prop})
+
+    # ---- CA as 0th cube with numeric measures: strand k reports row k of the 2-D measure
+    yy = dict(yvals=(0, 1, 3), ymeasures=("mean", "sum", "stddev", "median"), valid_counts=True)
+    sCY, rCY, st, err = records_for(
+        scenario("ca0_casub_x_cacat_y", [caitems("A", 3), cacat("A", 3, miss=[2])], **yy),
+        "c01", seed + 7, nrec)
+    gen += st["generated"]
+    if err:
+        return problems, evals, gen, err
+    sCYB, rCYB, st, err = records_for(
+        scenario("ca0_casub_x_cacat_x_cat_y", [caitems("A", 3), cacat("A", 3, miss=[2]), cat("B", 2)],
+                 **yy), "c01", seed + 8, nrec)
+    gen += st["generated"]
+    if err:
+        return problems, evals, gen, err
+    for a, b in zip(rCY, rCYB):
+        cs = CubeSet([resp(sCY, a), resp(sCYB, b)], [{}, {}], None, 0)
+        evals += 1
+        psets = cs.partition_sets
+        if not cs.is_ca_as_0th or len(psets) != 3 or any(len(p) != 2 for p in psets):
+            problems.append(("CA-as-0th (numeric measures): partition_sets has shape %s" %
+                             ([len(p) for p in psets],), {"case": "ca0y", "prop": "partition_sets"}))
+            continue
+        for flag, want in (("has_numeric_measures", True), ("has_weighted_counts", True),
+                           ("n_responses", a["hdr"]["n"]), ("missing_count", a["hdr"]["ymissing"])):
+            evals += 1
+            got = getattr(cs, flag)
+            if got != want:
+                problems.append(("CA-as-0th (numeric measures): CubeSet.%s is %r, the leading "
+                                 "response says %r" % (flag, got, want), {"case": "ca0y", "prop": flag}))
+        exp2d = a["parts"][0]
+        for k, (strand, slice_) in enumerate(psets):
+            for prop in ("means", "sums", "stddev", "medians", "counts", "unweighted_counts"):
+                evals += 1
+                try:
+                    obs = getattr(strand, prop)
+                except Exception as ex:  # noqa
+                    problems.append(("CA-as-0th strand %d .%s raised %r" % (k, prop, ex),
+                                     {"case": "ca0y", "prop": prop, "raises": True}))
+                    continue
+                _cmp(problems, "CA-as-0th strand %d .%s" % (k, prop), obs,
+                     row_of(exp2d[prop], k), {"case": "ca0y", "prop": prop})
+            for prop in ("means", "sums", "counts"):
+                evals += 1
+                _cmp(problems, "CA-as-0th slice %d .%s" % (k, prop), getattr(slice_, prop),
+                     b["parts"][k][prop], {"case": "ca0y", "prop": prop})
 
     # ---- numeric-measure rows: 0-D + 1-D cubes are padded with a one-row dimension
     y = dict(yvals=(0, 1, 3), ymeasures=("mean",), valid_counts=True)
